@@ -5,9 +5,15 @@ use serde_json::{json, Value};
 const POOL: &[&str] = &["?", "a", "bb", "c.js", "d", "e e", "ü", "g.map", "h"];
 
 fn path_string(comps: &Value, abs: bool, sep: i64) -> String {
-    let s = if sep == 0 { "/" } else { "\\" };
-    let body: Vec<&str> = comps.as_array().unwrap().iter().map(|c| POOL[c.as_u64().unwrap() as usize]).collect();
-    format!("{}{}", if abs { s } else { "" }, body.join(s))
+    // sep 0: '/', 1: '\\', 2: both kinds alternating within one path, 3: alternating the other way
+    let pick = |k: usize| match sep { 0 => "/", 1 => "\\", 2 => if k % 2 == 0 { "/" } else { "\\" }, _ => if k % 2 == 0 { "\\" } else { "/" } };
+    let mut out = String::new();
+    if abs { out.push_str(pick(1)); }
+    for (k, c) in comps.as_array().unwrap().iter().enumerate() {
+        if k > 0 { out.push_str(pick(k)); }
+        out.push_str(POOL[c.as_u64().unwrap() as usize]);
+    }
+    out
 }
 
 pub fn run(case: &Value, em: &mut Emitter) {
@@ -41,5 +47,5 @@ pub fn gen(rng: &mut Rng, _size: usize) -> Value {
         let k = rng.below(base.len() as u64 + 1) as usize;
         for i in 0..k.min(target.len()) { target[i] = base[i]; }
     }
-    json!({"op": "rel", "base": base, "target": target, "abs": rng.chance(1, 2), "sep": rng.below(2)})
+    json!({"op": "rel", "base": base, "target": target, "abs": rng.chance(1, 2), "sep": rng.below(4)})
 }
